@@ -311,6 +311,127 @@ func c16Whitespace(res *explore.Result, toks []int, verbose bool) {
 	rec(0)
 }
 
+// ---- structured space: every VALID document up to a token budget over small menus (values, keys incl. an
+// empty key, an escape-spelled duplicate of "a", raw and escaped U+FFFD), and for each of them its
+// truncations, separator deletions and one-token extensions.
+
+var c16Leaves = []string{`"a"`, `"\u00e9\ufffd"`, "\"\ufffd\"", `0`, `-1.5e1`, `12`, `true`, `null`}
+var c16Keys = []string{`"a"`, `""`, `"\u0061"`, "\"\ufffdé\""}
+var c16Extra = []string{",", ":", "]", "}", "1", `"a"`, "[", "{"}
+
+// genDocs calls f with the token list of every valid document using exactly n tokens.
+func genDocs(n int, f func(toks []string)) {
+	var value func(n int, emit func([]string))
+	var elems func(n int, emit func([]string))   // non-empty comma separated values using exactly n tokens
+	var members func(n int, emit func([]string)) // non-empty comma separated key:value pairs using exactly n tokens
+	value = func(n int, emit func([]string)) {
+		if n == 1 {
+			for _, l := range c16Leaves {
+				emit([]string{l})
+			}
+			return
+		}
+		if n == 2 {
+			emit([]string{"[", "]"})
+			emit([]string{"{", "}"})
+			return
+		}
+		if n >= 3 {
+			elems(n-2, func(inner []string) { emit(append(append([]string{"["}, inner...), "]")) })
+			members(n-2, func(inner []string) { emit(append(append([]string{"{"}, inner...), "}")) })
+		}
+	}
+	elems = func(n int, emit func([]string)) {
+		value(n, emit)
+		for first := 1; first <= n-2; first++ {
+			value(first, func(a []string) {
+				elems(n-first-1, func(b []string) {
+					emit(append(append(append([]string{}, a...), ","), b...))
+				})
+			})
+		}
+	}
+	member := func(n int, emit func([]string)) { // key : value
+		if n < 3 {
+			return
+		}
+		for _, k := range c16Keys {
+			value(n-2, func(v []string) { emit(append([]string{k, ":"}, v...)) })
+		}
+	}
+	members = func(n int, emit func([]string)) {
+		member(n, emit)
+		for first := 3; first <= n-4; first++ {
+			member(first, func(a []string) {
+				members(n-first-1, func(b []string) {
+					emit(append(append(append([]string{}, a...), ","), b...))
+				})
+			})
+		}
+	}
+	value(n, f)
+}
+
+func numericMergeStr(toks []string) bool {
+	num := func(t string) bool { return t[0] == '-' || (t[0] >= '0' && t[0] <= '9') }
+	for i := 0; i+1 < len(toks); i++ {
+		if num(toks[i]) && num(toks[i+1]) {
+			return true
+		}
+	}
+	return false
+}
+
+func c16Structured(res *explore.Result, env *explore.Env, maxTokens int) {
+	var idx int64
+	for n := 1; n <= maxTokens; n++ {
+		genDocs(n, func(toks []string) {
+			mine := env.Mine(idx)
+			idx++
+			if !mine {
+				return
+			}
+			doc := strings.Join(toks, "")
+			want, ok, _, inSubset := stdDecode(doc)
+			res.Add("states", 1)
+			res.Add("traces", 1)
+			res.Add("structured_valid_documents", 1)
+			if !ok || !inSubset {
+				res.Notes = append(res.Notes, "generator produced a document encoding/json rejects: "+doc)
+				return
+			}
+			res.Add("nontrivial", 1)
+			c16Text(res, doc, c16MustEqual, want, "valid (generated)", false)
+			if idx%5003 == 1 {
+				res.Sample("generated document " + doc + " with its truncations, separator deletions and one-token extensions")
+			}
+			judge := func(mut []string, why string) {
+				if numericMergeStr(mut) {
+					return
+				}
+				m := strings.Join(mut, "")
+				if _, mok, _, _ := stdDecode(m); mok {
+					return // still valid JSON (e.g. a prefix that is a document itself): judged when generated
+				}
+				res.Add("structured_corruptions", 1)
+				c16Text(res, m, c16MustFail, nil, why, false)
+			}
+			for k := 0; k < len(toks); k++ {
+				judge(toks[:k], "truncation of a valid document")
+			}
+			for k, t := range toks {
+				if t == "," || t == ":" {
+					mut := append(append([]string{}, toks[:k]...), toks[k+1:]...)
+					judge(mut, "valid document with one '"+t+"' removed")
+				}
+			}
+			for _, x := range c16Extra {
+				judge(append(append([]string{}, toks...), x), "valid document followed by further input")
+			}
+		})
+	}
+}
+
 func c16Families() []string {
 	var out []string
 	for _, e := range []string{`\"`, `\\`, `\b`, `\f`, `\n`, `\r`, `\t`, `A`, `é`, `€`, `￿`, `\u0000`, `\/`, `😀`, `\a`, `\x41`, `\q`, `\u12`, "é", "€", "😀", "\t", "\x7f"} {
@@ -358,6 +479,11 @@ func c16Run(env *explore.Env) *explore.Result {
 		}
 		rec(l)
 	}
+	structMax := 9
+	if env.Thorough() {
+		structMax = 11
+	}
+	c16Structured(res, env, structMax)
 	for i, doc := range c16Families() {
 		if !env.Mine(int64(i)) {
 			continue
@@ -436,7 +562,7 @@ func init() {
 		ID:    "C16",
 		Level: "model_checking",
 		Rule: "every string of 0..N tokens over a 20-token JSON alphabet (structural tokens, strings with escapes and non-ASCII, ints, decimals, exponent, literals, plus two valid-JSON tokens the grammar does not support) evaluated by the example parser exactly as examples/json/json.go builds it and by encoding/json (UseNumber); " +
-			"valid + inside the subset => deeply equal value (floats bit-equal); invalid and (truncation | one separator removed | trailing tokens) => error; anything else => no panic, value xor error; for every valid document of <= 5 tokens additionally EVERY assignment of {none, blank, LF, TAB LF} to every gap the grammar's modes allow; plus escape/number boundary families; " +
+			"valid + inside the subset => deeply equal value (floats bit-equal); invalid and (truncation | one separator removed | trailing tokens) => error; anything else => no panic, value xor error; for every valid document of <= 5 tokens additionally EVERY assignment of {none, blank, LF, TAB LF} to every gap the grammar's modes allow; a structured space: EVERY valid document of <= 9 (thorough 11) tokens over small value/key menus (duplicate and empty keys, an escape-spelled duplicate key, raw and escaped U+FFFD) with all its truncations, separator deletions and one-token extensions; plus escape/number boundary families; " +
 			"state = one token string; transition = one Evaluate; non-trivial = a valid document inside the subset",
 		Assume: []string{"encoding/json is the reference; numbers converted with strconv.ParseInt/ParseFloat; duplicate keys last-wins on both sides", "token strings are concatenated without separators (so adjacent number tokens merge); the verdict is always derived from encoding/json on the actual text"},
 		Run:    c16Run,
